@@ -60,9 +60,24 @@ def gen_case(rng, idx):
                 rr = float(np.round(rg * float(rng.choice([1.0, 1.0, 1.2, 1.5, 2.0])), 0))      # a rectifier is often rated above its generator
                 case["rectifier"] = {"rated": rr, "curve": comps.gen_accepted_curve(rng, rr, lo=0.95)}
             top = rg
+            # powers stay inside the load range the generator's and the rectifier's own curves cover
+            for st, r_st in ((case["generator"], rg), (case.get("rectifier"), case.get("rectifier", {}).get("rated"))):
+                if st is not None:
+                    l2, h2 = curve_range(st["curve"])
+                    l2, h2 = l2 * r_st / (0.9 * rg), h2 * r_st / (0.9 * rg)
+                    if max(lo, l2) <= min(hi, h2):
+                        lo, hi = max(lo, l2), min(hi, h2)
+                    else:
+                        st["curve"] = [float(np.round(rng.uniform(0.9, 0.98), 3))]
         elif kind == "geared":
             case["gearbox"] = {"rated": rated, "curve": comps.gen_accepted_curve(rng, rated, lo=0.93)}
             top = rated * 0.93
+            l2, h2 = curve_range(case["gearbox"]["curve"])
+            l2, h2 = l2 / (0.93 * 0.9), h2 / (0.93 * 0.9)
+            if max(lo, l2) <= min(hi, h2):
+                lo, hi = max(lo, l2), min(hi, h2)
+            else:
+                case["gearbox"]["curve"] = [float(np.round(rng.uniform(0.93, 0.99), 3))]
         else:
             top = rated
         loads = [float(np.round(rng.uniform(lo, hi), 3)) for _ in range(n)]
